@@ -341,8 +341,10 @@ def run_registration(repo: Repo, res: Result, rule: str) -> int:
                 det2 = f"the walk can leave the loop `{_loop_text(early[0])}` early (break / return): later paths are never registered"
             elif ok2:
                 det2 = f"every non-excluded {kind if kind != 'file' else '.py file'} is registered"
-            elif extra and all(_is_plumbing_test(sx, a) for a in extra):
-                res.undecide(rule, key + f" [{kind} registered exactly when]", f"cannot tell whether `{extra[0][:120]}` ever prevents the registration", wh)
+            elif extra and (all(_is_plumbing_test(sx, a) for a in extra) or not all(_mentions(sx, a, reg) for a in extra)):
+                # only a condition on the visited path / its name is recognisably an additional filter
+                odd = next((a for a in extra if not _mentions(sx, a, reg)), extra[0])
+                res.undecide(rule, key + f" [{kind} registered exactly when]", f"cannot tell whether `{odd[:120]}` ever prevents the registration", wh)
                 continue
             elif extra:
                 det2 = f"the registration of a {kind} additionally depends on `{' , '.join(extra)[:160]}`: not every non-excluded {kind if kind != 'file' else '.py file'} becomes a module"
@@ -427,6 +429,19 @@ def run_registration(repo: Repo, res: Result, rule: str) -> int:
             # all four kinds of events were found and judged: the rule did not pass vacuously, however few statements the walk has
             n = max(n, 7)
     return n
+
+
+def _mentions(sx: SymX, key: str, reg: Reg) -> bool:
+    """The tested value is computed from the visited path (or is the registered name)."""
+    t = sx.atoms.get(key)
+    if t is None or reg.path is None:
+        return False
+    target = strip_abs(loc(reg.path))
+    if any(x == reg.path or strip_abs(loc(x)) == target for x in subterms(t)):
+        return True
+    # (an alternative of) the registered name itself is tested
+    alts = [v for _g, v in reg.element[1]] if reg.element[0] == "phi" else [reg.element]
+    return any(x in alts for x in subterms(t))
 
 
 def _is_plumbing_test(sx: SymX, key: str) -> bool:
